@@ -137,6 +137,19 @@ impl Hash for Expression {
     }
 }
 
+/// Returns `Some(true)` if all array indices of the access are known to be
+/// constant, `Some(false)` if all index degrees are known and some index is not
+/// constant, and `None` if the degree of some index is still unknown.
+fn constant_indices(access: &[AccessType]) -> Option<bool> {
+    let mut result = true;
+    for access in access {
+        if let AccessType::ArrayAccess(index) = access {
+            result = result && index.degree()?.is_constant();
+        }
+    }
+    Some(result)
+}
+
 impl DegreeMeta for Expression {
     fn propagate_degrees(&mut self, env: &DegreeEnvironment) -> bool {
         let mut result = false;
@@ -224,8 +237,19 @@ impl DegreeMeta for Expression {
                         result = result || index.propagate_degrees(env);
                     }
                 }
-                if let Some(range) = env.degree(var) {
-                    result = result || meta.degree_knowledge_mut().set_degree(range);
+                match constant_indices(access) {
+                    Some(true) => {
+                        if let Some(range) = env.degree(var) {
+                            result = result || meta.degree_knowledge_mut().set_degree(range);
+                        }
+                    }
+                    // An element selected by a non-constant index is not a
+                    // polynomial in the signals.
+                    Some(false) => {
+                        result =
+                            result || meta.degree_knowledge_mut().set_degree(&NonQuadratic.into());
+                    }
+                    None => {}
                 }
                 result
             }
@@ -237,7 +261,14 @@ impl DegreeMeta for Expression {
                         result = result || index.propagate_degrees(env);
                     }
                 }
-                if env.degree(var).is_none() && !env.is_assigned(var) {
+                if constant_indices(access) != Some(true) {
+                    // An array updated at a non-constant index is not a
+                    // polynomial in the signals.
+                    if constant_indices(access) == Some(false) {
+                        result =
+                            result || meta.degree_knowledge_mut().set_degree(&NonQuadratic.into());
+                    }
+                } else if env.degree(var).is_none() && !env.is_assigned(var) {
                     // This is the first assignment to the array. The degree is given by the RHS.
                     if let Some(range) = rhe.degree() {
                         result = result || meta.degree_knowledge_mut().set_degree(range);
